@@ -128,7 +128,7 @@ def _chooser(case, rng=None):
     ex = sched.Explorer()
     ex.prefix = list(case['choices'])
     return ex.choose
-  return sched.random_chooser(common.Rng('c18/%s' % case['rseed']), case.get('switch', 0.4))
+  return sched.chooser_for(case, 'c18')
 
 
 def _bare_body(case, res):
